@@ -286,6 +286,9 @@ impl Rank for SArray {
         if !self.has_rank() {
             panic!("enable_rank() must be set up.")
         }
+        if self.num_bits < pos {
+            return None;
+        }
         self.ef.as_ref().map_or(Some(0), |ef| ef.rank(pos))
     }
 
